@@ -124,7 +124,7 @@ single one of them returns at the time it is scanned, hence at least any bound `
 this scan guarantees from every starting value. -/
 theorem findAddDelay_ge_of_chan (others : List ChanState) (myT : List Nat) (wa : Bool) (t0 : Int)
     (ch : ChanState) (hch : ch ∈ others) (B : Int)
-    (hB : ∀ cur, B ≤ findAddDelayChan (2 * ch.cfg.rise) ch.inEomMode myT wa cur ch.slots.reverse) :
+    (hB : ∀ cur, B ≤ findAddDelayChan (2 * ch.modeRise) ch.inEomMode myT wa cur ch.slots.reverse) :
     B ≤ findAddDelay others myT wa t0 := by
   unfold findAddDelay
   induction others generalizing t0 with
@@ -135,7 +135,7 @@ theorem findAddDelay_ge_of_chan (others : List ChanState) (myT : List Nat) (wa :
     · subst h
       have h1 := hB t0
       have h2 := findAddDelay_ge rest myT wa
-        (findAddDelayChan (2 * ch.cfg.rise) ch.inEomMode myT wa t0 ch.slots.reverse)
+        (findAddDelayChan (2 * ch.modeRise) ch.inEomMode myT wa t0 ch.slots.reverse)
       unfold findAddDelay at h2
       omega
     · exact ih _ h
